@@ -93,6 +93,7 @@ func runProgFast(p *Prog) *Result {
 	ir.DeclFunc("rec", func(tag int, v ...interface{}) { trace.Rec(tag, v...) })
 	ir.DeclFunc("pcl", func(r interface{}) string { return tr.PanicClass(r) })
 	ir.DeclFunc("hk", func() { trace.Hooks++ })
+	ir.DeclFunc("nc", func(v interface{}) interface{} { return tr.NoCap{V: v} })
 	timedOut := false
 	timer := time.AfterFunc(15*time.Second, func() { timedOut = true; ir.Interrupt(os.Interrupt) })
 	defer timer.Stop()
